@@ -33,7 +33,7 @@ package oauth2
 //@       (!emits Sess.Put(_, _) && !emits CallFuncValue(_) && !emits Store.NewFromOAuth2(_, _) && !emits Store.SaveOAuth2(_))
 //@   -- C14/C01: the session names exactly the (provider, uid) pair of the user the
 //@   -- storer built from the provider's answer and saved
-//@   ensures[C14,C01] identity: each Sess.Put(?k, ?v) => k == "uid" &&
+//@   ensures[C14,C01,C07] identity: each Sess.Put(?k, ?v) => k == "uid" &&
 //@       before Store.SaveOAuth2(?u) -> ?e :: e == nil && v == "oauth2;;" ++ provider ++ ";;" ++ OAuth2UID(u) &&
 //@       before Store.NewFromOAuth2(?prov, _) -> (?u2, ?e2) :: e2 == nil && u2 == u && prov == provider
 //@   ensures[C01] halfauth_cleared: each Sess.Put("uid", _) => after Sess.Del("halfauth")
